@@ -99,8 +99,8 @@ theorem map_eq_three {α β : Type} {f : α → β} {l : List α} {a b c : β} (
   match l, h with
   | [x, y, z], h => exact ⟨x, y, z, rfl, by simpa using h⟩
 
-theorem certId_eq {c : Cert} {k : CertKind} {s h : Nat} (hc : certId c = (k, s, h)) : c.kind = k ∧ c.slot = s ∧ c.hash = h := by
-  unfold certId at hc
+theorem cid3_eq {c : Cert} {k : CertKind} {s h : Nat} (hc : cid3 c = (k, s, h)) : c.kind = k ∧ c.slot = s ∧ c.hash = h := by
+  unfold cid3 at hc
   simp only [Prod.mk.injEq] at hc
   exact hc
 
@@ -164,8 +164,8 @@ theorem addVote_notar_step {e : Epoch} (hpos : 0 < e.total) {hi s h : Nat} {p : 
     exact ⟨_, trivial, ps1, hst', ph1, by simpa using hsil.noPanic, by simpa [vEvs_append] using vEvs_silent hsil⟩
   · -- the quorum is crossed: notar-fallback and notarization certificates
     obtain ⟨c1, c2, hcs, k1, k2⟩ := map_eq_two hids
-    obtain ⟨k1a, k1b, k1c⟩ := certId_eq k1
-    obtain ⟨k2a, k2b, k2c⟩ := certId_eq k2
+    obtain ⟨k1a, k1b, k1c⟩ := cid3_eq k1
+    obtain ⟨k2a, k2b, k2c⟩ := cid3_eq k2
     rw [hcs] at hst' ⊢
     rw [addValidCerts_cons, addValidCerts_cons, addValidCerts_nil]
     obtain ⟨p1, t1, e1⟩ := cert_nf ps1 ph1 c1 k1a k1b k1c
@@ -181,9 +181,9 @@ theorem addVote_notar_step {e : Epoch} (hpos : 0 < e.total) {hi s h : Nat} {p : 
       rfl
   · -- quorum and strong quorum are crossed by the same vote
     obtain ⟨c1, c2, c3, hcs, k1, k2, k3⟩ := map_eq_three hids
-    obtain ⟨k1a, k1b, k1c⟩ := certId_eq k1
-    obtain ⟨k2a, k2b, k2c⟩ := certId_eq k2
-    obtain ⟨k3a, k3b, k3c⟩ := certId_eq k3
+    obtain ⟨k1a, k1b, k1c⟩ := cid3_eq k1
+    obtain ⟨k2a, k2b, k2c⟩ := cid3_eq k2
+    obtain ⟨k3a, k3b, k3c⟩ := cid3_eq k3
     rw [hcs] at hst' ⊢
     rw [addValidCerts_cons, addValidCerts_cons, addValidCerts_cons, addValidCerts_nil]
     obtain ⟨p1, t1, e1⟩ := cert_nf ps1 ph1 c1 k1a k1b k1c
@@ -207,7 +207,7 @@ theorem addVote_notar_step {e : Epoch} (hpos : 0 < e.total) {hi s h : Nat} {p : 
     exact ⟨_, trivial, ps1, hst', ph1, by simpa using hsil.noPanic, by simpa [vEvs_append] using vEvs_silent hsil⟩
   · -- the strong quorum is crossed: fast-finalization certificate
     obtain ⟨c3, hcs, k3⟩ := map_eq_one hids
-    obtain ⟨k3a, k3b, k3c⟩ := certId_eq k3
+    obtain ⟨k3a, k3b, k3c⟩ := cid3_eq k3
     rw [hcs] at hst' ⊢
     rw [addValidCerts_cons, addValidCerts_nil]
     obtain ⟨p3, t3, e3⟩ := cert_fin ps1 ph1 c3 (Or.inl ⟨k3a, k3c⟩) k3b
@@ -224,5 +224,80 @@ theorem addVote_notar_step {e : Epoch} (hpos : 0 < e.total) {hi s h : Nat} {p : 
     rw [hcs] at hst' ⊢
     rw [addValidCerts_nil]
     exact ⟨_, trivial, ps1, hst', ph1, by simpa using hsil.noPanic, by simpa [vEvs_append] using vEvs_silent hsil⟩
+
+/-- the Votor events caused by the finalization vote of `j`, after those of `F` -/
+def finalVEvs (e : Epoch) (s : Nat) (F : List Nat) (j : Nat) : List Votor.Event :=
+  if (e.isQuorum (stakeOf e (F ++ [j])) && !e.isQuorum (stakeOf e F)) = true then [.cert .final s 0] else []
+
+/-- **one finalization vote of the exchange enters a pool** (the notarization quorum is complete) -/
+theorem addVote_final_step {e : Epoch} {hi s h : Nat} {p : Nat × Nat} {X F : List Nat} {a : SlotState}
+    {Q : Pool} (hs : s ≤ hi) (ps : PSlot e s a Q) (hst : NotarSt e s h X F a) (hqX : e.isQuorum (stakeOf e X) = true)
+    (ph : PhaseN e hi s h p X F Q) (j : Nat) (hj : j ∉ F) (hjn : j < e.n) :
+    ∃ a', (Q.addVote ⟨.final, s, 0, j⟩).2.1 = .ok ∧ PSlot e s a' (Q.addVote ⟨.final, s, 0, j⟩).1 ∧
+      NotarSt e s h X (F ++ [j]) a' ∧ PhaseN e hi s h p X (F ++ [j]) (Q.addVote ⟨.final, s, 0, j⟩).1 ∧
+      Event.panic ∉ (Q.addVote ⟨.final, s, 0, j⟩).2.2 ∧
+      vEvs (Q.addVote ⟨.final, s, 0, j⟩).2.2 = finalVEvs e s F j := by
+  have hss : Q.slotState s = (Q, a) := slotState_of_some ps.slot
+  obtain ⟨hc, hi'⟩ := hst.admit_final hj
+  have hadm := addVote_admitted Q ⟨.final, s, 0, j⟩ (ph.inBounds hs) (by rw [ps.epoch]; exact hjn)
+    (by rw [hss]; exact hc) (by rw [hss]; exact hi')
+  simp only [hss, ps.epoch] at hadm
+  obtain ⟨hsil, hst', hids⟩ := hst.addFinal j
+  rw [hadm]
+  generalize a.addVote e ⟨.final, s, 0, j⟩ = r at *
+  have hr1s : r.1.slot = s := by rw [← foldl_addCert_slot r.2.1 r.1]; exact hst'.1.slot
+  have ps1 : PSlot e s r.1 (Q.putSlot r.1) := ps.putSlot hr1s
+  have htrk1 : (Q.putSlot r.1).trk = Q.trk := putSlot_trk _ _
+  have ph1 := ph.of_trk htrk1
+  generalize Q.putSlot r.1 = Q1 at *
+  have hN : stakeOf e (F ++ [j]) = stakeOf e F + e.stake j := by rw [stakeOf_append, stakeOf_single]
+  have hq : e.isQuorum (stakeOf e F) = true → e.isQuorum (stakeOf e (F ++ [j])) = true :=
+    fun hh => isMet_mono_le _ _ _ _ _ (by omega) hh
+  unfold PhaseN at ph1 ⊢
+  unfold finalVEvs
+  simp only [hqX, true_and] at ph1 ⊢
+  cases hq0 : e.isQuorum (stakeOf e F) <;> cases hq1 : e.isQuorum (stakeOf e (F ++ [j])) <;>
+    (try (have := hq hq0; rw [hq1] at this; cases this)) <;>
+    simp only [hq0, hq1, Bool.true_and, Bool.false_and, Bool.not_true, Bool.not_false, Bool.false_eq_true,
+      if_false, if_true, or_false, or_true] at hids ph1 ⊢
+  · have hcs : r.2.1 = [] := by simpa using hids
+    rw [hcs] at hst' ⊢
+    rw [addValidCerts_nil]
+    exact ⟨_, ps1, hst', ph1, by simpa using hsil.noPanic, by simpa [vEvs_append] using vEvs_silent hsil⟩
+  · -- the quorum of finalization votes is crossed
+    obtain ⟨c3, hcs, k3⟩ := map_eq_one hids
+    obtain ⟨k3a, k3b, k3c⟩ := cid3_eq k3
+    rw [hcs] at hst' ⊢
+    rw [addValidCerts_cons, addValidCerts_nil]
+    by_cases hf : e.isStrong (stakeOf e X) = true
+    · rw [if_pos hf] at ph1
+      obtain ⟨p3, t3, s3, e3⟩ := cert_final_done ps1 ph1.1 ph1.2 c3 k3a k3b
+      refine ⟨_, p3, hst', ⟨t3, s3⟩, ?_, ?_⟩
+      · rw [e3]
+        have := hsil.noPanic
+        simp_all
+      · rw [e3]
+        simp only [vEvs_append, List.nil_append, vEvs_silent hsil, List.append_nil, vEvs_cert, k3a, k3b, k3c, certKind]
+    · rw [if_neg hf] at ph1
+      obtain ⟨p3, t3, e3⟩ := cert_fin ps1 ph1 c3 (Or.inr k3a) k3b
+      refine ⟨_, p3, hst', ⟨t3, ?_⟩, ?_, ?_⟩
+      · exact (t3.parentOk).elim id (fun hh => by
+          exfalso; have h0 := congrArg Prod.fst hh.1; simp only [] at h0; have := ph1.plt; omega)
+      · rw [e3]
+        have := hsil.noPanic
+        simp_all
+      · rw [e3]
+        simp only [vEvs_append, List.nil_append, vEvs_silent hsil, List.append_nil, vEvs_cert, k3a, k3b, k3c, certKind]
+  · have hcs : r.2.1 = [] := by simpa using hids
+    rw [hcs] at hst' ⊢
+    rw [addValidCerts_nil]
+    exact ⟨_, ps1, hst', ph1, by simpa using hsil.noPanic, by simpa [vEvs_append] using vEvs_silent hsil⟩
+
+/-- a notarization vote that is already stored is a duplicate: nothing changes -/
+theorem addVote_notar_dup {e : Epoch} {hi s h : Nat} {p : Nat × Nat} {X F : List Nat} {a : SlotState}
+    {Q : Pool} (hs : s ≤ hi) (ps : PSlot e s a Q) (hst : NotarSt e s h X F a) (ph : PhaseN e hi s h p X F Q)
+    (j : Nat) (hj : j ∈ X) (hjn : j < e.n) : Q.addVote ⟨.notar, s, h, j⟩ = (Q, .dup, []) := by
+  obtain ⟨hc, hi'⟩ := hst.dup_notar hj
+  exact addVote_dup Q _ a (ph.inBounds hs) (by rw [ps.epoch]; exact hjn) ps.slot hc hi'
 
 end AgModel.Pool
